@@ -1299,6 +1299,16 @@ def _main(ctx, scratch, stream, njobs, ntxn, stride, seeds=None):
     lines, meta = _judge_histories(ctx, hres)
     _judge_frontends(ctx, fres, lines, meta)
     _judge_discipline(ctx, lines, meta)
+    # A watchdog expiry ("BLOCKED"/hung) is a verdict about wall-clock time: on a saturated machine a worker can be
+    # starved for longer than the watchdog.  Such a job (it is fully determined by its seed) is re-run once in
+    # the parent, after the pool has drained; only what reproduces there is judged.  A real dead-lock reproduces.
+    confirmed = []
+    for r in sres:
+        if not r.get("skipped") and (r.get("blocked") or r.get("hung") or r.get("free") == "BLOCKED"):
+            ctx.stat("schedule:watchdog-verdict-rerun")
+            r = schedule_job({"seed": r["seed"], "ram": r["ram"], "scratch": scratch})
+        confirmed.append(r)
+    sres = confirmed
     _judge_schedules(ctx, sres)
     for h in hres[:3]:
         if h["txns"]:
